@@ -37,3 +37,34 @@ Example C08_example :
                 {| r_b := {| b_flag := 4; b_lf := 3; b_le := 1#10; b_w := 100 |}; r_a := 0; r_s := -2; r_lm := 0 |} ] in
   Forall (planted 2 (-(3#2))) rows /\ 0 < m22 rows /\ 0 < det rows.
 Proof. cbv zeta. split; [repeat constructor; unfold planted, resid; simpl; reflexivity|split; vm_compute; reflexivity]. Qed.
+
+(* --- "whose row orders must all agree": the model grid is put together from one convolved file per filter (ReadM models
+   Models._read_version_1).  The first file fixes the model order; any other file that lists the same models, in whatever order,
+   is brought into that order by name, and nothing but its order changes - so the planted model's row of the grid carries the
+   planted model's own flux in every band, however the files were produced. *)
+From Coq Require Import Permutation ZArith.
+From SedV Require Import Table ReadM.
+Close Scope Q_scope.
+
+Theorem C08_files_by_name : forall (D : Type) (d0 : D) ref f, NoDup ref -> Permutation (names_of D f) ref ->
+  exists out, align D d0 ref f = Some out /\ names_of D out = ref /\ Permutation out f.
+Proof. exact align_by_name. Qed.
+
+Theorem C08_files_order_irrelevant : forall (D : Type) (d0 : D) ref f f', NoDup ref -> Permutation (names_of D f) ref ->
+  Permutation f f' -> align D d0 ref f = align D d0 ref f'.
+Proof. exact align_order_irrelevant. Qed.
+
+Theorem C08_files_lookup : forall (D : Type) (d0 : D) ref f out k, NoDup ref -> Permutation (names_of D f) ref ->
+  align D d0 ref f = Some out -> lookup D k out = lookup D k f.
+Proof. exact align_lookup. Qed.
+
+Theorem C08_grid : forall (D : Type) (d0 : D) f0 rest, NoDup (names_of D f0) ->
+  Forall (fun f => Permutation (names_of D f) (names_of D f0)) rest ->
+  exists outs, read_files D d0 (f0 :: rest) = Some (f0 :: outs) /\
+               Forall2 (fun out f => names_of D out = names_of D f0 /\ Permutation out f) outs rest.
+Proof. exact read_files_spec. Qed.
+
+Example C08_grid_example :
+  read_files Z 0%Z [ [(3, 30); (1, 10); (2, 20)]; [(1, 11); (2, 21); (3, 31)] ]%Z
+  = Some [ [(3, 30); (1, 10); (2, 20)]; [(3, 31); (1, 11); (2, 21)] ]%Z.
+Proof. vm_compute. reflexivity. Qed.
